@@ -697,7 +697,7 @@ func (s *Sim) runSchedule() {
 // viewBattery: searches run through held views; they do not mention tags
 // (the tag set changes during a run, the battery of a view must not).
 func viewBattery(p *Plan) []string {
-	b := []string{"sort:ftime", "sort:id", "sort:-ltime,id limit:4", "sport:80,443 sort:id", "data:\"FLAG\" sort:id", "data.none:\"alpha\" sort:id", "protocol:udp sort:id", "cbytes:100: sort:-id", "sort:chost,id", "sort:-shost,id limit:3", "chost:10.0.0.0/8 sort:id", "host:fd00::/16 sort:id", "-chost:10.0.0.0/8 sort:id", "-shost:fd00::/16 sort:id", "@s:id:0 ftime:@s:ltime@: sort:id"}
+	b := []string{"sort:ftime", "sort:id", "sort:-ltime,id limit:4", "sport:80,443 sort:id", "data:\"FLAG\" sort:id", "data.none:\"alpha\" sort:id", "protocol:udp sort:id", "cbytes:100: sort:-id", "PAGED:sort:sport", "PAGED:sort:-cbytes limit:3", "PAGED:protocol:tcp sort:shost", "sort:chost,id", "sort:-shost,id limit:3", "chost:10.0.0.0/8 sort:id", "host:fd00::/16 sort:id", "-chost:10.0.0.0/8 sort:id", "-shost:fd00::/16 sort:id", "@s:id:0 ftime:@s:ltime@: sort:id"}
 	for _, off := range []int64{10, 75} {
 		t := time.Unix(p.Net.BaseUnix+off, 0).UTC().Format("2006-01-02 150405")
 		b = append(b, fmt.Sprintf("ltime:\"%s:\" sort:id", t), fmt.Sprintf("ltime:\":%s\" sort:id", t), fmt.Sprintf("ftime:\":%s\" sort:id", t), fmt.Sprintf("ftime:\"%s:\" sort:id", t))
